@@ -102,7 +102,7 @@ def generate(run_seed, tier):
     cfg = {'tabseed': c.randrange(2**31), 'dirs': dirs, 'shape': shape,
            'mols': mols, 'pairs': pairs, 'cia_dirs': cia_dirs,
            'kmols': kmols, 'kt_dirs': kt_dirs,
-           'cia_split': c.random() < 0.6,
+           'cia_split': c.random() < 0.6, 'exo_orders': True,
            'logmag': c.choice([[-40, 0], [-30, -18], [-24, -20]])}
     o = st('ops')
     n = o.randint(4, 40 if tier == 'quick' else 120)
@@ -339,7 +339,13 @@ def execute(case, keep_text=False):
         elif rec['fmt'] == 'hdf5':
             ST.write_hdf5_xsec(path, tab, rec['mol'], rec['unit'])
         else:
-            ST.write_exotransmit(path, tab)
+            order = 'asc'
+            if cfg.get('exo_orders'):
+                hh = H(cfg['tabseed'], 'exo-order', rec['file'], rec['gen'])
+                order = ['asc', 'asc', 'desc', 'shuffle'][hh % 4]
+                out.bump('faults', 'exo_blocks_' + order)
+            ST.write_exotransmit(path, tab, order, H(cfg['tabseed'],
+                                                     rec['file']))
 
     for dp, recs in zip(dirpaths, store):
         seen = set()
